@@ -148,5 +148,5 @@ Definition lower_str (x : str) : str := map lower_ascii x.
 
 (* a dummy definition that forces the extraction of the number types the OCaml
    prelude converts from/to *)
-Definition keep_types : nat * N * Z * positive * ascii * comparison :=
-  (0, N0, Z0, xH, zero, Eq).
+Definition keep_types : nat * N * Z * positive * ascii * comparison * res unit :=
+  (0, N0, Z0, xH, zero, Eq, Err Crash).
